@@ -1,1 +1,191 @@
-//! C18 monitor (filled in below)
+//! C18 — title, creation date and language are stored faithfully and touch nothing else.
+
+use super::*;
+use crate::model::basic::iso8601;
+
+fn v(sig: String, detail: String) -> Violation {
+    Violation::new("C18", sig, detail)
+}
+
+/// Metadata clauses on a finished file.
+pub fn check_meta(a: &Analysis, obs: &mut Obs) -> Vec<Violation> {
+    let mut out = Vec::new();
+    if !a.finished_ok() {
+        return out;
+    }
+    let cfg = &a.h.cfg;
+    let has_meta = cfg.has_meta();
+    let title = if cfg.meta { cfg.title.as_ref() } else { None };
+    let ctime = if has_meta { cfg.ctime } else { None };
+    let lang = if has_meta { cfg.lang.as_ref() } else { None };
+    let names: Vec<_> = a.movie.ilst.iter().filter(|i| &i.0 == b"\xa9nam").collect();
+    let days: Vec<_> = a.movie.ilst.iter().filter(|i| &i.0 == b"\xa9day").collect();
+    match title {
+        Some(t) => {
+            if names.len() != 1 {
+                out.push(v(format!("title|item-count x{}", names.len()), format!("title configured ({} bytes) but {} name items", t.len(), names.len())));
+            } else {
+                if names[0].2 != t.as_bytes() {
+                    out.push(v("title|bytes".into(), format!("name item holds {} ; configured title {}", crate::util::hex_short(&names[0].2), crate::util::hex_short(t.as_bytes()))));
+                }
+                if names[0].1 != 1 {
+                    out.push(v("title|data-type".into(), format!("data type indicator {}", names[0].1)));
+                }
+            }
+            obs.count("titles_checked", 1);
+        }
+        None => {
+            if !names.is_empty() {
+                out.push(v("title|unexpected-item".into(), "name item present without a configured title".into()));
+            }
+        }
+    }
+    match ctime {
+        Some(c) => {
+            let want = iso8601(c);
+            if days.len() != 1 {
+                out.push(v(format!("date|item-count x{}", days.len()), format!("creation time {} configured but {} date items", c, days.len())));
+            } else if days[0].2 != want.as_bytes() {
+                let year = crate::model::basic::civil_from_days(c / 86_400).0;
+                out.push(v(
+                    format!("date|value|{}", if year <= 9999 { "year<=9999" } else { "year>9999" }),
+                    format!("unix time {} stored as {:?} ; expected {:?}", c, String::from_utf8_lossy(&days[0].2), want),
+                ));
+            }
+            obs.count("dates_checked", 1);
+        }
+        None => {
+            if !days.is_empty() {
+                out.push(v("date|unexpected-item".into(), "date item present without a configured creation time".into()));
+            }
+        }
+    }
+    if title.is_none() && ctime.is_none() && a.movie.has_udta {
+        out.push(v("udta|present-without-title-or-date".into(), "udta box emitted although neither title nor creation time is configured".into()));
+    }
+    if (title.is_some() || ctime.is_some()) && !a.movie.has_udta {
+        out.push(v("udta|missing".into(), "title/creation time configured but no udta box".into()));
+    }
+    // language in every track's media header
+    let well_formed = |l: &str| l.len() == 3 && l.bytes().all(|b| b.is_ascii_lowercase());
+    let want = match lang {
+        Some(l) if well_formed(l) => Some(l.clone()),
+        Some(_) => None, // malformed codes: only no-panic / well-formedness is claimed
+        None => Some("und".to_string()),
+    };
+    if let Some(w) = want {
+        for t in &a.movie.tracks {
+            let got = t.mdhd.language();
+            if got != w {
+                out.push(v(
+                    format!("language|{}", if lang.is_some() { "configured" } else { "default" }),
+                    format!("track {} mdhd language {:?} ; expected {:?}", t.track_id, got, w),
+                ));
+                break;
+            }
+        }
+        obs.count("languages_checked", 1);
+    } else {
+        obs.count("malformed_languages_exercised", 1);
+    }
+    out
+}
+
+/// "Metadata never changes any sample, timing or configuration": compare with the same history
+/// run without metadata.
+pub fn check_isolation(with: &Analysis, without: &Analysis, obs: &mut Obs) -> Vec<Violation> {
+    let mut out = Vec::new();
+    for (i, (r1, r2)) in with.ex.results.iter().zip(without.ex.results.iter()).enumerate() {
+        let mask = |r: &Res| match r {
+            Res::OkStats(s) => Res::OkStats(Stats { bytes_written: 0, ..s.clone() }),
+            o => o.clone(),
+        };
+        if mask(r1) != mask(r2) {
+            out.push(v(format!("isolation|result-differs|{}", with.h.ops[i].name()), format!("call #{}: with metadata {} ; without {}", i, r1.brief(), r2.brief())));
+            return out;
+        }
+    }
+    if !with.finished_ok() || !without.finished_ok() {
+        return out;
+    }
+    let strip = |a: &Analysis| -> Vec<String> {
+        let mut d = Vec::new();
+        d.push(format!("mvhd ts {} dur {} next {}", a.movie.mvhd.timescale, a.movie.mvhd.duration, a.movie.mvhd.next_track_id));
+        for t in &a.movie.tracks {
+            d.push(format!("track {} {} ts {} dur {}", t.track_id, bmff::fourcc(&t.handler), t.mdhd.timescale, t.mdhd.duration));
+            d.push(format!("entry {:x}", crate::util::fnv(&t.entry)));
+            d.push(format!("stts {:?} ctts {:?} stss {:?} sizes {:x}", t.stts, t.ctts, t.stss, crate::util::fnv(format!("{:?}", t.sizes).as_bytes())));
+            let mut hh = 0u64;
+            for s in &t.samples {
+                match a.sample_bytes(s) {
+                    Some(b) => hh = hh.rotate_left(7) ^ crate::util::fnv(b),
+                    None => hh = hh.rotate_left(7) ^ 0xdead,
+                }
+            }
+            d.push(format!("payload {:x}", hh));
+        }
+        d
+    };
+    let (d1, d2) = (strip(with), strip(without));
+    if d1 != d2 {
+        let diff = d1.iter().zip(d2.iter()).find(|(x, y)| x != y);
+        out.push(v(
+            format!("isolation|description-differs|{}", diff.map(|d| d.0.split(' ').next().unwrap_or("?")).unwrap_or("length")),
+            format!("with metadata: {:?} ; without: {:?}", diff.map(|d| d.0), diff.map(|d| d.1)),
+        ));
+    }
+    // offsets shifted consistently: the resolver succeeds on the file with metadata
+    let mut scratch = Obs::default();
+    let c1 = super::c01::check(with, &mut scratch);
+    let c2 = super::c01::check(without, &mut scratch);
+    if c1.len() != c2.len() {
+        out.push(v("isolation|resolver".into(), format!("sample resolution differs with metadata: {:?} vs {:?}", c1.first().map(|x| &x.sig), c2.first().map(|x| &x.sig))));
+    }
+    obs.count("isolation_pairs", 1);
+    out
+}
+
+/// One finished empty muxer per creation time: the date item must be the ISO-8601 date.
+pub fn check_date(unix: u64, obs: &mut Obs) -> Vec<Violation> {
+    use crate::exec::{run, ExecOpts};
+    let mut cfg = Cfg::basic(H264);
+    cfg.meta = true;
+    cfg.ctime = Some(unix);
+    cfg.fast_start = Some(unix % 2 == 0);
+    let h = History { cfg, ops: vec![Op::Finish(FinishKind::InPlace)] };
+    let (ex, sink) = run(&h, &ExecOpts::default());
+    let bytes = sink.bytes();
+    let a = Analysis::new(&h, &ex, &bytes, &[]);
+    obs.evaluations += 1;
+    check_meta(&a, obs)
+}
+
+pub fn check_lang(code: &str, fragmented: bool, obs: &mut Obs) -> Vec<Violation> {
+    use crate::exec::{run, run_frag, ExecOpts};
+    obs.evaluations += 1;
+    if fragmented {
+        let fc = FragCfg { vcodec: H264, width: 640, height: 480, via_builder: true, timescale: 90_000, fragment_duration_ms: 2000, sps: Some(vec![0x67, 1, 2, 3]), pps: Some(vec![0x68, 1]), vps: None, av1_seq: None, vp9: None, lang: Some(code.to_string()) };
+        let h = FHistory { cfg: fc, ops: vec![FOp::Init] };
+        let ex = run_frag(&h, &ExecOpts::default());
+        if let Some(FRes::Bytes(b)) = ex.results.first() {
+            let tree = bmff::parse_tree(b);
+            let m = bmff::parse_movie(b, &tree);
+            for t in &m.tracks {
+                if t.mdhd.language() != code {
+                    return vec![v("language|fragmented-init".into(), format!("builder language {:?} but init segment mdhd says {:?}", code, t.mdhd.language()))];
+                }
+            }
+            obs.count("fragmented_languages_checked", 1);
+        }
+        return vec![];
+    }
+    let mut cfg = Cfg::basic(H264);
+    cfg.audio = Some(AudioCfg { kind: 7, rate: 48_000, channels: 2 });
+    cfg.path = 4;
+    cfg.lang = Some(code.to_string());
+    let h = History { cfg, ops: vec![Op::Finish(FinishKind::InPlace)] };
+    let (ex, sink) = run(&h, &ExecOpts::default());
+    let bytes = sink.bytes();
+    let a = Analysis::new(&h, &ex, &bytes, &[]);
+    check_meta(&a, obs)
+}
